@@ -79,9 +79,13 @@ def run_history(cfg, ops):
             continue
         if k == "make":
             n0 = len(sess)
-            s = site.makeSession()
-            i, fresh = idx(s)
-            snapshot({"e": "make", "res": ["ok", i], "fresh": fresh and i == n0 + 1, "n": site.counter})
+            fresh = [False]
+
+            def okmake(s):
+                i, fr = idx(s)
+                fresh[0] = fr and i == n0 + 1
+                return i
+            snapshot({"e": "make", "res": call(site.makeSession, okmake), "fresh": fresh[0], "n": site.counter})
         elif k == "get":
             u = op[1]
             if u > len(sess):
@@ -198,6 +202,50 @@ def key(t):
     return json.dumps([t["cfg"], t["ev"]], sort_keys=True)
 
 
+def situations(traces):
+    """how often the recorded real executions reached each modelled situation (vacuity guard on the code side)"""
+    n = dict(timer_expiry=0, explicit_expiry=0, touch_after_timer_expiry_raises=0, touch_after_explicit_expiry_quiet=0,
+             expire_twice_keyerror=0, callback_ran=0, raising_callback_aborts_expire=0, aborted_timer_fires_keyerror=0,
+             rget_makes_session=0, rget_by_cookie=0, rget_returns_expired_cached=0, rget_replaces_timer_expired=0,
+             two_timers_same_advance=0)
+    for t in traces:
+        dead = {}
+        cached = {}
+        for e in t["ev"]:
+            k = e["e"]
+            live = set(e["live"])
+            if k == "advance":
+                gone = [s for s in dead if s not in live and dead[s] is None]
+                n["timer_expiry"] += len(gone)
+                n["two_timers_same_advance"] += len(gone) + e["out"].count(["err", 1]) >= 2
+                n["aborted_timer_fires_keyerror"] += ["err", 1] in e["out"]
+                for s in gone:
+                    dead[s] = "timer"
+            if k == "expire":
+                s = e["s"]
+                if e["res"] == ["err", 1]:
+                    n["expire_twice_keyerror"] += 1
+                else:
+                    n["explicit_expiry"] += 1
+                    dead[s] = "explicit"
+                    n["raising_callback_aborts_expire"] += e["res"] == ["err", 2]
+            if k == "touch":
+                n["touch_after_timer_expiry_raises"] += e["res"] == ["err", 3]
+                n["touch_after_explicit_expiry_quiet"] += e["res"][0] == "ok" and dead.get(e["s"]) == "explicit"
+            n["callback_ran"] += sum(1 for o in e["out"] if o[0] == "cb")
+            if k == "rget" and e["res"][0] == "ok":
+                s = e["res"][1]
+                prev = cached.get(e["r"])
+                n["rget_makes_session"] += e["new"]
+                n["rget_by_cookie"] += (not e["new"]) and prev != s
+                n["rget_returns_expired_cached"] += prev == s and s not in live
+                n["rget_replaces_timer_expired"] += prev is not None and prev != s
+                cached[e["r"]] = s
+            for s in live:
+                dead.setdefault(s, None)
+    return n
+
+
 def run(ctx):
     ctx.mc("WebSessionMC", ctx.pick("WebSessionMC.cfg", "WebSessionMC.thorough.cfg"))
     ctx.require_actions("WebSessionMC", ["Make", "Get", "Touch", "Expire", "Notify", "SetTmo", "Advance", "NewReq", "RGet"])
@@ -215,6 +263,11 @@ def run(ctx):
     for _ in range(ctx.pick(1200, 20000)):
         add(run_history({"timeout": ctx.rng.choice([1, 2, 3])}, random_ops(ctx.rng, ctx.rng.randint(4, 28))))
     ctx.extra["histories"] = dict(exhaustive_short=nex, random=len(traces) - nex)
+    reached = situations(traces)
+    ctx.extra["situations_reached_in_real_executions"] = reached
+    if min(reached.values()) == 0:
+        from harness.core import MachineryError
+        raise MachineryError("vacuity: situations never reached by the real executions: %s" % [k for k, v in reached.items() if not v])
     ctx.note_traces(traces)
     rej = ctx.validate("WebSessionTrace", traces, shard_size=ctx.pick(700, 2500))
     for x in rej[:10]:
